@@ -3,3 +3,5 @@ import LiquidModel.Model.Find
 import LiquidModel.Model.Ast
 import LiquidModel.Model.Render
 import LiquidModel.Drv.All
+import LiquidModel.Model.CondParse
+import LiquidModel.Model.Literal
